@@ -243,6 +243,20 @@ CLAIMED = {
             'TLC supplies the class matrix and dispatch model; value equality is established by the harness (NaN = NaN, tuples = '
             'lists). Trusted: projections in vh/drivers/c18.py.',
             '5/C18'),
+    'C19': ('TLA+ spec of per-format time normalisation (Readers.tla on the Civil.tla calendar) model-checked by TLC on boundary '
+            'records; generated files of every format loaded by the real readers and validated record by record by TLC '
+            '(TraceReaders)',
+            'TLC checks RolloverCorrect, OffsetCorrect, ResolutionCorrect and DateValid on records at minute / hour / day / month / '
+            'year / leap-day ends with seconds 0 / 59 / 60, millisecond phases and UTC offsets, for the five formats. Files of 1, 2, '
+            '3, 17, 200 (2000 thorough) random records (35% on such boundaries, pre-1970 years, seconds 60 for NDK / HORUS, offsets '
+            '+09:00 / -05:00 / +05:30 in both spellings for JMA) are rendered as ZMAP columns, JMA CSV, HORUS table, NDK 5-line '
+            'fixed-width blocks and CSEP CSV, loaded through csep.load_catalog(type=...), and TLC accepts a file only if the reader '
+            'produced exactly one event per record, in file order, each carrying the instant the specification derives from the '
+            'written civil time at the format resolution; coordinates, depth and magnitude (NDK: Mw from the scalar moment) are '
+            'compared by the harness.',
+            'Format rendering is harness code written from the layouts documented in readers.py (NDK after the obspy field '
+            'positions). HORUS values are compared at single precision, the documented dtype of that reader.',
+            '5/C19'),
 }
 
 NOT_YET = 'check not built yet in this round (specification planned in DESIGN.md section 5); not claimed until it exists'
